@@ -95,10 +95,11 @@ def exc_name(e):
 # layer U
 # =================================================================================================
 class UState:
-    __slots__ = ("path", "handles", "hmode", "model", "header", "hist", "exists", "pending")
+    __slots__ = ("path", "handles", "hmode", "model", "header", "hist", "exists", "pending", "lastmode")
 
     def __init__(self, path):
         self.path = path
+        self.lastmode = {}  # name -> the mode a reopen without arguments has to use
         self.handles = {}  # name -> UKVFile
         self.hmode = {}  # name -> "r"/"a"/None(closed)
         self.model = {}  # key bytes -> value bytes
@@ -108,7 +109,8 @@ class UState:
 
 
 class USys:
-    def __init__(self, ctx, nhandles=2, keys=None, vals=None, label="U", headers=None, copy=False):
+    def __init__(self, ctx, nhandles=2, keys=None, vals=None, label="U", headers=None, copy=False, remembered=False):
+        self.remembered = remembered  # creation with mode "w"; reopening a handle WITHOUT a mode
         self.copy = copy  # UKVFile.copy_items as a read route (out of a handle) and a put route (into a handle)
         self.ctx = ctx
         self.headers = headers or list(HEADERS)
@@ -134,7 +136,7 @@ class USys:
         if op[0] == "copyout":
             return f"copyout[{op[2]}]"
         if op[0] in ("open", "create"):
-            return f"{op[0]}[{op[2]}]"
+            return f"{op[0]}[{op[2] if op[2] is not None else 'remembered-mode'}]"
         return op[0]
 
     def file_bytes(self):
@@ -191,6 +193,9 @@ class USys:
         if not st.exists:
             for hd in self.headers:
                 ops.append(("create", "h0", "x", hd))
+            # mode "w" on a path that does not exist yet is a creation too
+            if self.remembered:
+                ops.append(("create", "h0", "w", self.headers[0]))
             return ops
         names = [f"h{i}" for i in range(self.nh)]
         open_w = [n for n in names if st.hmode.get(n) == "a"]
@@ -205,6 +210,13 @@ class USys:
                     ops.append(("open", n, "r"))
                 if not open_any:
                     ops.append(("open", n, "a"))
+                # reopening WITHOUT a mode (f.open() / `with f:`): the mode the handle remembers -
+                # "a" after a creation or an append, "r" after a read
+                if self.remembered and n in st.handles:
+                    rem = st.lastmode.get(n)
+                    if (rem == "r" and not open_w) or (rem == "a" and not open_any):
+                        ops.append(("open", n, None))
+                        ops.append(("open", n, None, "with"))
             else:
                 ops.append(("close", n))
                 if m == "a":
@@ -265,16 +277,24 @@ class USys:
                 h = UKVFile(self.path, mode=mode, **HEADERS[hd])
                 st.handles[name] = h
                 st.hmode[name] = "a"
+                st.lastmode[name] = "a"
                 st.header = hd
                 st.exists = True
         elif kind == "open":
-            _, name, mode = op
+            _, name, mode = op[:3]
             try:
-                if name in st.handles:
+                if mode is None:
+                    mode = st.lastmode[name]
+                    if op[3:] == ("with",):
+                        st.handles[name].__enter__()
+                    else:
+                        st.handles[name].open()
+                elif name in st.handles:
                     st.handles[name].open(mode)
                 else:
                     st.handles[name] = UKVFile(self.path, mode=mode)
                 st.hmode[name] = mode
+                st.lastmode[name] = mode
             except Exception as e:
                 self.viol(st, op, "open-raised", f"open({mode}) raised {exc_name(e)}: {e}")
                 st.hist.append(list(op))
@@ -1170,7 +1190,7 @@ def run(ctx):
     # full alphabet, one level deeper on the default header
     layer("U_2handles_full_alphabet_default_header_depth", lambda c: USys(c, nhandles=2, keys=rot(KEYNAMES), vals=vals, label="U2d", headers=["default"]), 7 if thorough else 6)
     # reduced alphabet, deeper, three handles in the thorough tier
-    layer("U_reduced_alphabet_depth", lambda c: USys(c, nhandles=3 if thorough else 2, keys=red_keys, vals=red_vals, label="U3", headers=["default", "h2only"]), 10 if thorough else 9)
+    layer("U_reduced_alphabet_depth", lambda c: USys(c, nhandles=3 if thorough else 2, keys=red_keys, vals=red_vals, label="U3", headers=["default", "h2only"], remembered=True), 10 if thorough else 9)
     ctx.bound["U_reduced_alphabet_handles"] = 3 if thorough else 2
 
     # copy_items: a read route out of any open handle and a put route into a writable one
@@ -1200,7 +1220,7 @@ def run(ctx):
 
 def replay(ctx, case):
     if case["layer"] == "U":
-        sm = USys(ctx, nhandles=case.get("nh", 2), keys=list(KEYNAMES), vals={**values(ctx), "big70k": big_value(ctx.seed)}, label="replay", copy=True)
+        sm = USys(ctx, nhandles=case.get("nh", 2), keys=list(KEYNAMES), vals={**values(ctx), "big70k": big_value(ctx.seed)}, label="replay", copy=True, remembered=True)
     else:
         sm = CSys(ctx, nhandles=case.get("nh", 2), keys=list(CKEYS), vals={**values(ctx), "big70k": big_value(ctx.seed)}, label="replay", bystander=True)
     hist = [tuple(o) for o in case["history"]]
